@@ -1,6 +1,7 @@
 package main
 
 import (
+	"sort"
 	"fmt"
 	"go/token"
 	"strings"
@@ -441,6 +442,7 @@ func tputsSegmentsRule(c *Ctx, p *Prog, rule string) {
 	// the terminator is searched in the string that starts right after the marker
 	sawSkip := map[int]bool{}
 	sawPrefix := map[int]bool{}
+	var skipTerm ssa.Instruction
 	eachInstr(fn, func(in ssa.Instruction) {
 		sl, ok := in.(*ssa.Slice)
 		if !ok {
@@ -456,6 +458,9 @@ func tputsSegmentsRule(c *Ctx, p *Prog, rule string) {
 				}
 			}
 			if i, ok := markerOf(base); ok {
+				if i == 1 {
+					skipTerm = in
+				}
 				sawSkip[i] = true
 				c.Check(k == int64(len(idxs[i].marker)) && idxs[i].call.Call.Args[0] == sl.X, rule, "TPuts:skip-"+role(i), p.pos(in.Pos()),
 					fmt.Sprintf("the rest of the string starts %d byte(s) after the position of %q (its length is %d)", k, idxs[i].marker, len(idxs[i].marker)))
@@ -491,6 +496,7 @@ func tputsSegmentsRule(c *Ctx, p *Prog, rule string) {
 	// writes: classify every io.WriteString argument
 	nWrites := 0
 	okWhole, okPrefix, okVerbatim := false, false, false
+	var rejectWrites []ssa.Instruction
 	eachInstr(fn, func(in ssa.Instruction) {
 		cc := callCommon(in)
 		if cc == nil || calleeName(cc) != "io.WriteString" || len(cc.Args) != 2 {
@@ -526,8 +532,13 @@ func tputsSegmentsRule(c *Ctx, p *Prog, rule string) {
 			okWhole = true
 			return
 		}
-		c.Fail(rule, "TPuts:write:"+valName(arg), p.pos(in.Pos()), "a write that is neither the text before a marker, the unterminated remainder, nor the padding-free string")
+		if m, ok := constString(arg); ok && m == idxs[0].marker {
+			rejectWrites = append(rejectWrites, in)
+			return
+		}
+		c.Fail(rule, "TPuts:write:"+valName(arg), p.pos(in.Pos()), "a write that is neither the text before a marker, the unterminated remainder, the kept marker of an ill-formed specification, nor the padding-free string")
 	})
+	tputsGrammar(c, p, fn, rule, skipTerm, rejectWrites)
 	c.Check(okWhole, rule, "TPuts:no-padding-verbatim", p.pos(fn.Pos()), "a string without a padding marker is written whole")
 	c.Check(okPrefix, rule, "TPuts:prefix-written", p.pos(fn.Pos()), "the text before each padding marker is written")
 	if !okVerbatim {
@@ -548,4 +559,336 @@ func tputsSegmentsRule(c *Ctx, p *Prog, rule string) {
 		}
 		c.Check(ok, rule, "TPuts:sleep-needs-padchar", p.pos(in.Pos()), fmt.Sprintf("guards at the sleep: %v", g))
 	})
+}
+
+// tputsGrammar: only a well-formed padding specification $<n[.m][*][/]> is
+// removed; anything else between the markers is ordinary text and stays.
+// Decided on the specification scanner: (i) the bytes it accepts are exactly
+// the digits, '.', '*' and '/'; (ii) the byte that is none of them leads, on
+// every path back to the scanning loop, through a write that keeps the marker,
+// and that path does not skip the terminator; (iii) the terminator is skipped
+// only under two boolean facts, one falsified by the reject case and one made
+// true only by a digit (a specification without a number is not one).
+func tputsGrammar(c *Ctx, p *Prog, fn *ssa.Function, rule string, skipTerm ssa.Instruction, rejects []ssa.Instruction) {
+	if skipTerm == nil {
+		return // reported by the segmentation part
+	}
+	// the specification: the prefix slice up to the terminator
+	var spec ssa.Value
+	eachInstr(fn, func(in ssa.Instruction) {
+		if sl, ok := in.(*ssa.Slice); ok && sl.Low == nil && sl.High != nil {
+			if call, ok := sl.High.(*ssa.Call); ok && calleeName(&call.Call) == "strings.Index" {
+				if m, _ := constString(call.Call.Args[1]); m == ">" {
+					spec = sl
+				}
+			}
+		}
+	})
+	if spec == nil {
+		c.Undecided(rule, "TPuts:grammar", p.pos(fn.Pos()), "the specification text was not found")
+		return
+	}
+	// comparisons of a byte of the specification with constants
+	isSpecByte := func(v ssa.Value) bool {
+		v = stripConv(v)
+		if u, ok := v.(*ssa.UnOp); ok && u.Op == token.MUL {
+			if ia, ok := u.X.(*ssa.IndexAddr); ok {
+				return ia.X == spec
+			}
+		}
+		if ix, ok := v.(*ssa.Index); ok {
+			return ix.X == spec
+		}
+		return false
+	}
+	alphabet := map[int64]*ssa.BinOp{}
+	eachInstr(fn, func(in ssa.Instruction) {
+		bo, ok := in.(*ssa.BinOp)
+		if !ok || bo.Op != token.EQL || !isSpecByte(bo.X) {
+			return
+		}
+		if k, ok := constInt(bo.Y); ok {
+			alphabet[k] = bo
+		}
+	})
+	want := map[int64]bool{'.': true, '*': true, '/': true}
+	for d := int64('0'); d <= '9'; d++ {
+		want[d] = true
+	}
+	var extra, missing []string
+	for k := range alphabet {
+		if !want[k] {
+			extra = append(extra, fmt.Sprintf("%q", rune(k)))
+		}
+	}
+	for k := range want {
+		if alphabet[k] == nil {
+			missing = append(missing, fmt.Sprintf("%q", rune(k)))
+		}
+	}
+	sort.Strings(extra)
+	sort.Strings(missing)
+	if rule != "C15-R5" {
+		// for the well-formedness of the output (C09) only this matters: every padding
+		// specification that occurs in the database is recognised, so none leaks as text
+		if len(rejects) == 0 {
+			c.OK(rule, "TPuts:database-padding-recognised", p.pos(fn.Pos()), "every terminated specification is removed")
+			return
+		}
+		used := map[byte]bool{}
+		if db := buildDB(c, p); db != nil {
+			for _, e := range db.entries {
+				for _, v := range e.Str {
+					for {
+						i := strings.Index(v, "$<")
+						if i < 0 {
+							break
+						}
+						v = v[i+2:]
+						j := strings.Index(v, ">")
+						if j < 0 {
+							break
+						}
+						for k := 0; k < j; k++ {
+							used[v[k]] = true
+						}
+						v = v[j+1:]
+					}
+				}
+			}
+		}
+		var leak []string
+		for b := range used {
+			if alphabet[int64(b)] == nil {
+				leak = append(leak, fmt.Sprintf("%q", rune(b)))
+			}
+		}
+		sort.Strings(leak)
+		c.Check(len(leak) == 0, rule, "TPuts:database-padding-recognised", p.pos(fn.Pos()), fmt.Sprintf("%d distinct bytes occur inside $<…> in the database; not recognised by the scanner (such a specification is written to the terminal as text): %v", len(used), leak))
+		return
+	}
+	c.Check(len(extra) == 0 && len(missing) == 0, rule, "TPuts:grammar:alphabet", p.pos(fn.Pos()), fmt.Sprintf("bytes the specification scanner recognises: %d (missing %v, unexpected %v); terminfo(5): digits, '.', '*', '/'", len(alphabet), missing, extra))
+	// the reject case: the block reached when the byte equals none of the alphabet
+	var def *ssa.BasicBlock
+	for _, b := range fn.Blocks {
+		neg := map[int64]bool{}
+		for _, g := range rawGuardsAt(b) {
+			if bo, ok := g.Cond.(*ssa.BinOp); ok && !g.Positive && bo.Op == token.EQL && isSpecByte(bo.X) {
+				if k, ok := constInt(bo.Y); ok {
+					neg[k] = true
+				}
+			}
+		}
+		all := len(alphabet) > 0
+		for k := range alphabet {
+			if !neg[k] {
+				all = false
+			}
+		}
+		if all && (def == nil || b.Dominates(def)) {
+			def = b
+		}
+	}
+	// loop header of the marker scan: the block holding the Index(s, "$<") call
+	var hdr *ssa.BasicBlock
+	eachInstr(fn, func(in ssa.Instruction) {
+		if call, ok := in.(*ssa.Call); ok && calleeName(&call.Call) == "strings.Index" {
+			if m, _ := constString(call.Call.Args[1]); m == "$<" {
+				hdr = call.Block()
+			}
+		}
+	})
+	if def == nil || hdr == nil {
+		c.Fail(rule, "TPuts:ill-formed-kept", p.pos(fn.Pos()), "the specification scanner has no case for a byte outside the grammar: whatever stands between $< and > is removed")
+		return
+	}
+	if len(rejects) == 0 {
+		c.Fail(rule, "TPuts:ill-formed-kept", p.pos(firstPos(def)), "a specification containing a byte outside the grammar is removed like a well-formed one (no write keeps it): text such as \"$<abc>\" in a title or URL disappears")
+		return
+	}
+	// the boolean facts under which the terminator is skipped; the one the reject case falsifies
+	validPhi := map[ssa.Value]bool{}
+	for _, g := range rawGuardsAt(skipTerm.Block()) {
+		var ph *ssa.Phi
+		if x, ok := g.Cond.(*ssa.Phi); ok && g.Positive {
+			ph = x
+		}
+		if u, ok := g.Cond.(*ssa.UnOp); ok && u.Op == token.NOT && !g.Positive {
+			ph, _ = u.X.(*ssa.Phi)
+		}
+		if ph == nil {
+			continue
+		}
+		seenP := map[*ssa.Phi]bool{}
+		var fromDef func(x *ssa.Phi) bool
+		fromDef = func(x *ssa.Phi) bool {
+			if seenP[x] {
+				return false
+			}
+			seenP[x] = true
+			for i, e := range x.Edges {
+				if b, ok := constBool(e); ok && !b && (x.Block().Preds[i] == def || def.Dominates(x.Block().Preds[i])) {
+					return true
+				}
+				if y, ok := e.(*ssa.Phi); ok && fromDef(y) {
+					return true
+				}
+			}
+			return false
+		}
+		if fromDef(ph) {
+			validPhi[ph] = true
+		}
+	}
+	// successors consistent with "the reject case has falsified that fact"
+	succsKnowingRejected := func(b *ssa.BasicBlock) []*ssa.BasicBlock {
+		if len(b.Instrs) > 0 {
+			if iff, ok := b.Instrs[len(b.Instrs)-1].(*ssa.If); ok {
+				if validPhi[iff.Cond] {
+					return b.Succs[1:2]
+				}
+				if u, ok := iff.Cond.(*ssa.UnOp); ok && u.Op == token.NOT && validPhi[u.X] {
+					return b.Succs[0:1]
+				}
+			}
+		}
+		return b.Succs
+	}
+	// every path from the reject case back to the scan passes a reject write and does not skip the terminator
+	rej := map[*ssa.BasicBlock]bool{}
+	for _, w := range rejects {
+		rej[w.Block()] = true
+	}
+	escapes, skips := false, false
+	seen := map[*ssa.BasicBlock]bool{}
+	stack := []*ssa.BasicBlock{def}
+	for len(stack) > 0 {
+		b := stack[len(stack)-1]
+		stack = stack[:len(stack)-1]
+		if seen[b] {
+			continue
+		}
+		seen[b] = true
+		if rej[b] {
+			continue
+		}
+		if b == hdr {
+			escapes = true
+			continue
+		}
+		if b == skipTerm.Block() {
+			skips = true
+		}
+		if len(b.Succs) == 0 {
+			escapes = true // returns without having kept the text
+		}
+		stack = append(stack, succsKnowingRejected(b)...)
+	}
+	// after the reject write: the terminator must not be skipped before the next scan
+	seen = map[*ssa.BasicBlock]bool{}
+	stack = stack[:0]
+	for b := range rej {
+		stack = append(stack, b.Succs...)
+	}
+	for len(stack) > 0 {
+		b := stack[len(stack)-1]
+		stack = stack[:len(stack)-1]
+		if seen[b] || b == hdr {
+			continue
+		}
+		seen[b] = true
+		if b == skipTerm.Block() {
+			skips = true
+		}
+		stack = append(stack, b.Succs...)
+	}
+	c.Check(!escapes && !skips, rule, "TPuts:ill-formed-kept", p.pos(firstPos(def)), fmt.Sprintf("a byte outside the grammar always leads to the write that keeps the marker (escapes: %v) and the scan resumes right after the marker (terminator skipped on that path: %v)", escapes, skips))
+	// accept side: the terminator is skipped under two boolean phis
+	var flags []*ssa.Phi
+	for _, g := range rawGuardsAt(skipTerm.Block()) {
+		if ph, ok := g.Cond.(*ssa.Phi); ok && g.Positive {
+			flags = append(flags, ph)
+		}
+		if u, ok := g.Cond.(*ssa.UnOp); ok && u.Op == token.NOT && !g.Positive {
+			if ph, ok := u.X.(*ssa.Phi); ok {
+				flags = append(flags, ph)
+			}
+		}
+	}
+	sources := func(ph *ssa.Phi, val bool) []*ssa.BasicBlock {
+		var out []*ssa.BasicBlock
+		seen := map[*ssa.Phi]bool{}
+		var visit func(x *ssa.Phi)
+		visit = func(x *ssa.Phi) {
+			if seen[x] {
+				return
+			}
+			seen[x] = true
+			for i, e := range x.Edges {
+				if b, ok := constBool(e); ok && b == val {
+					out = append(out, x.Block().Preds[i])
+				} else if y, ok := e.(*ssa.Phi); ok {
+					visit(y)
+				}
+			}
+		}
+		visit(ph)
+		return out
+	}
+	isDigitCase := func(b *ssa.BasicBlock) bool {
+		for _, g := range rawGuardsAt(b) {
+			if bo, ok := g.Cond.(*ssa.BinOp); ok && g.Positive && bo.Op == token.EQL && isSpecByte(bo.X) {
+				if k, ok := constInt(bo.Y); ok && k >= '0' && k <= '9' {
+					return true
+				}
+			}
+		}
+		// several digit cases share one body: every predecessor chain starts at a digit comparison
+		if len(b.Preds) > 1 {
+			for _, pr := range b.Preds {
+				if len(pr.Instrs) == 0 {
+					return false
+				}
+				iff, ok := pr.Instrs[len(pr.Instrs)-1].(*ssa.If)
+				if !ok {
+					return false
+				}
+				bo, ok := iff.Cond.(*ssa.BinOp)
+				if !ok || bo.Op != token.EQL || !isSpecByte(bo.X) || pr.Succs[0] != b {
+					return false
+				}
+				if k, ok := constInt(bo.Y); !ok || k < '0' || k > '9' {
+					return false
+				}
+			}
+			return true
+		}
+		return false
+	}
+	hasValid, hasDigits := false, false
+	for _, ph := range flags {
+		for _, b := range sources(ph, false) {
+			if b == def || def.Dominates(b) {
+				hasValid = true
+			}
+		}
+		ts := sources(ph, true)
+		allDigit := len(ts) > 0
+		for _, b := range ts {
+			ok := false
+			for x := b; x != nil; x = x.Idom() {
+				if isDigitCase(x) {
+					ok = true
+					break
+				}
+			}
+			if !ok {
+				allDigit = false
+			}
+		}
+		if allDigit {
+			hasDigits = true
+		}
+	}
+	c.Check(hasValid && hasDigits, rule, "TPuts:well-formed-only", p.pos(skipTerm.Pos()), fmt.Sprintf("the terminator is skipped only when no byte was rejected (%v) and a digit was seen (%v)", hasValid, hasDigits))
 }
